@@ -4,3 +4,5 @@ import AllfedModel.Props.C18
 import AllfedModel.Props.C11
 import AllfedModel.Props.C06
 import AllfedModel.Props.C07
+import AllfedModel.Props.C15
+import AllfedModel.Props.C17
